@@ -681,6 +681,46 @@ def replay_site(o):
     o["witness"] = dict(o.get("witness") or {}, native=dict(kind=kind, overlaps_vs_scratch=e_ov, greens_vs_scratch=e_g, fast_vs_slow=e_fs))
 
 
+def replay_bond(o):
+    """native replay of a neighbour-bond contract violation: one real propagate() step of the nearest-neighbour fast and slow propagators with the same key on a
+    3-site chain: stored overlaps / greens must equal the from-scratch values of the propagated walkers, and fast == slow"""
+    H.setup_repo()
+    import jax
+    import jax.numpy as jnp
+    from ad_afqmc import wavefunctions as wf, propagation
+    kind = "ghf_cpmc" if "ghf_cpmc" in o["name"] else "uhf_cpmc"
+    norb, nel, nw = 3, (2, 1), 4
+    rng = np.random.default_rng(21)
+    trial = getattr(wf, kind)(norb, nel)
+    wave = {"mo_coeff": [jnp.array(rng.normal(size=(norb, nel[0]))), jnp.array(rng.normal(size=(norb, nel[1])))]} if kind == "uhf_cpmc" else \
+        {"mo_coeff": jnp.array(rng.normal(size=(2 * norb, nel[0] + nel[1])))}
+    res = {}
+    for cls in (propagation.propagator_cpmc_nn, propagation.propagator_cpmc_nn_slow):
+        prop = cls(dt=0.05, n_walkers=nw, neighbors=((0, 1), (1, 2)))
+        rng2 = np.random.default_rng(22)
+        walkers = [jnp.array(rng2.normal(size=(nw, norb, nel[0]))), jnp.array(rng2.normal(size=(nw, norb, nel[1])))]
+        ov = trial.calc_overlap(walkers, wave)
+        walkers = [walkers[0] * jnp.sign(ov.real)[:, None, None], walkers[1]]
+
+        def hs(u):
+            g_, c_ = np.arccosh(np.exp(0.05 * u / 2)), np.exp(-0.05 * u / 2)
+            return jnp.array(c_ * np.array([[np.exp(g_), np.exp(-g_)], [np.exp(-g_), np.exp(g_)]]))
+        pd = dict(walkers=walkers, weights=jnp.ones(nw), overlaps=trial.calc_overlap(walkers, wave).real, greens=trial.calc_full_green_vmap(walkers, wave),
+                  pop_control_ene_shift=jnp.array(0.0), e_estimate=jnp.array(0.0), hs_constant_onsite=hs(4.0), hs_constant_nn=hs(1.0), hs_constant=hs(4.0),
+                  key=jax.random.PRNGKey(7))
+        ham = dict(exp_h1=jnp.array([np.eye(norb)] * 2))
+        res[cls.__name__] = prop.propagate(trial, ham, pd, jnp.zeros((nw, norb)), wave)
+    f, s_ = res["propagator_cpmc_nn"], res["propagator_cpmc_nn_slow"]
+    e_ov = float(jnp.max(jnp.abs(f["overlaps"] - trial.calc_overlap(f["walkers"], wave))))
+    e_g = float(jnp.max(jnp.abs(f["greens"] - trial.calc_full_green_vmap(f["walkers"], wave))))
+    e_fs = float(max(jnp.max(jnp.abs(f["weights"] - s_["weights"])), jnp.max(jnp.abs(f["walkers"][0] - s_["walkers"][0])), jnp.max(jnp.abs(f["walkers"][1] - s_["walkers"][1]))))
+    e_sl = float(jnp.max(jnp.abs(s_["overlaps"] - trial.calc_overlap(s_["walkers"], wave))))
+    dev = max(e_ov, e_g, e_fs, e_sl)
+    o["replayed"] = bool(not np.isfinite(dev) or dev > 1e-8)
+    o["witness"] = dict(o.get("witness") or {}, native=dict(kind=kind, lattice="3-site chain, bonds (0,1),(1,2)", fast_overlaps_vs_scratch=e_ov, fast_greens_vs_scratch=e_g,
+                                                          fast_vs_slow=e_fs, slow_overlaps_vs_scratch=e_sl))
+
+
 def _replay_constraint(o):
     """native replay: 2 sites, trial [1;1] per spin, walker up = [-3; 4] (G_up[0,0] = -3), walker dn = [1;1]: at site 0 the first field value has a
     negative ratio (rejected), the second a positive one (allowed); with zero Gaussian fields the allowed value is chosen and the weight must be
